@@ -48,11 +48,12 @@ def run_streams(ctx, streams, extra=None):
 def run_resp_streams(ctx, streams, extra=None, corpus=True):
     """RESP-level streams over loopback TCP. streams: list of dicts
        {label, fams, n:(quick,thorough), count:(quick,thorough), conns, events}"""
-    import gen_resp, gen_resp_lhs, gen_resp_zs
+    import gen_resp, gen_resp_lhs, gen_resp_zs, gen_resp_geo
     quick = ctx.tier == "quick"
     h = vlib.build_harness(ctx)
     families = dict(gen_resp_lhs.FAMILIES)
     families.update(gen_resp_zs.FAMILIES)
+    families.update(gen_resp_geo.FAMILIES)
     if corpus:
         ops = vlib.corpus_ops(ctx.pid, "resp.ops")
         seqs, cur = [], []
